@@ -39,6 +39,7 @@ func (t *Dense) {{.Name}}({{if ge .NumArgs 1 -}} val1 interface{} {{end}} {{if g
 	if !t.IsMasked() {
 		t.makeMask()		
 	}	
+	defer t.keepMaskOutsideView()()
     	
     {{$numargs := .NumArgs}}
 	{{$name := .Name}}
